@@ -666,6 +666,8 @@ func addTimeSubs(cfg *ResponseConfig, a *asset, period *m.Period, languages []st
 		if vST.StartNumber != nil {
 			st.StartNumber = vST.StartNumber
 		}
+		st.AvailabilityTimeOffset = vST.AvailabilityTimeOffset
+		st.AvailabilityTimeComplete = vST.AvailabilityTimeComplete
 		if vST.SegmentTimeline != nil {
 			// Create segmentTimeline for subtitles from vST
 			st.SegmentTimeline = changeTimelineTimescale(vST.SegmentTimeline, int(*vST.Timescale), SUBS_TIME_TIMESCALE)
